@@ -267,7 +267,22 @@ func (e *Exec) evUnary(x *ast.UnaryExpr) Val {
 		return e.addrOf(x.X)
 	case token.ARROW:
 		ch := e.ev(x.X)
-		return e.chanRecv(ch, e.typeOf(x))
+		r := e.chanRecv(ch, e.typeOf(x))
+		// receive event: recvd(ch) counts, recvval(ch) is the last value received
+		name := exprText(x.X)
+		cnt, _ := e.st.vars["recvd:"+name].(SV)
+		if cnt.T == "" {
+			cnt = iv("0")
+		}
+		e.st.vars["recvd:"+name] = iv(mkAdd(cnt.T, "1"))
+		val, okT := r, ""
+		if tv, isT := r.(TupleV); isT && len(tv) == 2 {
+			val = tv[0]
+			okT = e.asBool(tv[1])
+		}
+		e.st.vars["recvval:"+name] = val
+		e.recvWithInv(x, val, okT)
+		return r
 	case token.XOR:
 		v := e.ev(x.X)
 		e.declareFun("bitnot", []string{SInt}, SInt)
